@@ -27,8 +27,7 @@ EXHAUSTIVE = {"quick": False, "thorough": False}
 TIME_BUDGET = {"quick": 50, "thorough": 800}
 TRUSTED = ["CPython list slicing / slice assignment / defaultdict / issubclass (slice assignment modelled as take ++ val ++ drop)",
            "random.randint(a, b) returns a value in [a, b], random.randrange(a, b) one in [a, b), random.choice(seq) an element "
-           "of seq (the contracts the tape draws are checked against); the iteration order of a set of type objects is "
-           "unspecified, so that draw is transported as the chosen type",
+           "of seq (the contracts the tape draws are checked against)",
            "IEEE-754 double division and comparison (terminalRatio, termpb) are the same operation in Lean's Float"]
 ASSUMPTIONS = ["primitive sets: every primitive has arity >= 1, every terminal arity 0; where a requested type has no "
                "terminal / no primitive, generate raises its documented IndexError and produces no tree (model: none)",
@@ -62,11 +61,6 @@ class MyTape(_tape.Tape):
         self.elems = {}
 
     def _choice(self, seq):
-        # `random.choice(list(common_types))`: the order of a set of classes depends on their addresses, so a
-        # stored replay would pick another type in another process.  Index a canonically ordered copy instead
-        # (any element is a legitimate result of random.choice); the chosen TYPE travels on the tape.
-        if len(seq) and all(isinstance(e, type) and type(e) is not gp.MetaEphemeral for e in seq):
-            seq = sorted(seq, key=lambda c: (c.__module__, c.__qualname__))
         x = _tape.Tape._choice(self, seq)
         self.elems[len(self.draws) - 1] = x
         return x
@@ -431,11 +425,9 @@ def tape_tok(ps, tp):
             lo, hi = (0, a[0]) if len(a) == 1 else (a[0], a[1])
             out.append("g%d.%d.%d" % (lo, hi, d[2]))
         elif k == "choice":
-            e = tp.elems.get(j)
-            if isinstance(e, type) and type(e) is not gp.MetaEphemeral:
-                out.append("k%d.%d" % (d[1], ps.tid(e)))
-            else:
-                out.append("c%d.%d" % (d[1], d[2]))
+            # also `random.choice(common_types)` of the crossovers: the list is in order of first occurrence in
+            # ind1 (no longer a set of classes), so the plain index is reproducible and the model checks the order
+            out.append("c%d.%d" % (d[1], d[2]))
         else:
             raise ValueError("unexpected draw %r" % (d,))
     return ",".join(out) if out else "-"
@@ -884,6 +876,14 @@ def generate(tier, rng, mult):
                             if mode != "grow" and mx >= 5:
                                 d["observe"] = False
                             yield d
+    # crossover in a strongly typed set whose roots return `object` (the untyped shortcut removed by the fix of
+    # cxOnePoint would swap nodes of unrelated types there)
+    for _ in range((2000 if thorough else 200) * mult):
+        ps = get_ps("typedobj")
+        d = op_desc(rng, ps, "cx")
+        for g in d["t"]:
+            g["mode"], g["mn"], g["mx"], g["ty"] = "full", rng.randint(1, 2), 3, 0
+        yield d
     # staticLimit on the height with a tight limit: both parents exactly at the limit
     for _ in range((20000 if thorough else 2000) * mult):
         ps = get_ps(rng.choice(PSNAMES))
